@@ -301,12 +301,30 @@ func (C06Mon) After(w *core.World, st *core.Step) {
 			}
 		}
 		for _, q := range pa.Pos {
-			q2 := path.Clean(q)
-			if _, isFile := wt[q2]; !isFile || !gen.ValidPath(q2) || strings.HasPrefix(q, "/") || strings.HasPrefix(q2, "../") || InGoit(q2) || st.Pre.Odd[q2] != "" {
+			q2, okc := CleanArg(q) // "./x", "d//x", "../w/x" name x
+			if !okc || !gen.ValidPath(q2) || InGoit(q2) || st.Pre.Odd["w/"+q2] != "" {
 				plain = false
 				break
 			}
-			want[q2] = true
+			if _, isFile := wt[q2]; isFile {
+				if !resolvesOnDisk(st.Pre, q) {
+					plain = false // "file/" and friends: refused or staged, see C04
+					break
+				}
+				want[q2] = true
+			} else if IsDirOnDisk(st.Pre, q2) {
+				for p := range wt {
+					if Under(p, q2) && !InGoit(p) {
+						if st.Pre.Odd["w/"+p] != "" {
+							plain = false
+						}
+						want[p] = true
+					}
+				}
+			} else {
+				plain = false
+				break
+			}
 		}
 		if plain && conflictFree(SortedSet(want)) {
 			c.Oracle("C06.entries-written")
@@ -381,6 +399,13 @@ func runC06CLI(c *core.Ctx) {
 		for _, p := range P {
 			w.Write(p, []byte("v1 "+p+"\n"))
 			w.Goit("add", p) // one by one, in shuffled order: exercises the sort
+		}
+		// the same paths once more, named through their directory, spelled plainly and through the parent directory
+		for _, p := range P {
+			if i := strings.Index(p, "/"); i > 0 && w.Rng.IntN(3) == 0 {
+				w.Write(p, []byte("v2 "+p+"\n"))
+				w.Goit("add", pickS(w.Rng, []string{p[:i], "../w/" + p[:i], "./" + p[:i] + "/", "../w/" + p}))
+			}
 		}
 		w.Goit("ls-files", "-s")
 		w.Goit("ls-files")
